@@ -166,6 +166,20 @@ def execCpp (toks : List String) : Option String :=
         | .obj m => some s!"ok {hexL (cppSerialize m)}"
         | _ => some "exc bad tree")
      | _ => some "exc tree must be an object")
+  | "xt" :: tree =>
+    -- Binson::toStr(): serialize, a depth-10 parser, to_string with a 10-byte first try and a retry at the reported size; "" when refused
+    (match parseTreeValue tree with
+     | some (.obj fs, _) => (match putAll (.obj fs) with
+        | .obj m =>
+          let bytes := cppSerialize m
+          if bytes.isEmpty then some "ok -" else
+          let r := init (garbageParser 10) bytes.toArray 1
+          if !r.2 then some "ok -" else
+          let t1 := toString' stdFmts r.1 (some (pattern 10)) 10
+          let t := if t1.2.1 then t1 else toString' stdFmts t1.1 (some (pattern t1.2.2.1)) t1.2.2.1
+          if t.2.1 then some s!"ok {hexOf (t.2.2.2.1.extract 0 t.2.2.1)}" else some "ok -"
+        | _ => some "exc bad tree")
+     | _ => some "exc tree must be an object")
   | op :: tree =>
     if op.startsWith "xr" then
       let k := ((op.drop 2).toString.take 1).toString.toNat!      -- a trailing 'p' (destination pre-populated) does not change what the model returns
@@ -379,6 +393,7 @@ structure WOracle where
   lastE : String := "e0"                -- the writer part of the last observation (C11: a refused to_writer changes nothing)
   lastC : String := "c0"
   resetSeen : Bool := false             -- C12: a reset has returned true since the last init
+  failSeen : Bool := false              -- C09: some write call has returned false since the last init / successful reset
   errNow : Bool := false                -- C09: the implementation reported a non-zero writer error in its last observation
   lastDump : Option String := none      -- C09: the last dump, if the error was already latched when it was taken
   deriving Inhabited
@@ -495,7 +510,8 @@ def textOracle (o : OState) (po : POracle) (toks : List String) (impl : String) 
         if claimed > n then (text ++ [0] ++ List.replicate (capN - n - 1) 0xAA).toArray
         else #[]
       let o := if claimed > n && claimed ≤ capN && mem != memOut expect then
-          o.flag (if capN ≤ 160 then "C14" else "C14") s!"text differs from the reference rendering: got {mem} want {memOut expect}" else o
+          (o.flag "C14" s!"text differs from the reference rendering: got {mem} want {memOut expect}").flag
+            "C13" s!"capacity {claimed} > text length {n}: the destination does not hold the text followed by NUL: got {mem} want {memOut expect}" else o
       if capN ≤ 160 && claimed ≤ capN then
         let got := parseHex mem
         let tailOk := (List.range (capN - claimed)).all fun i => got.getD (claimed + i) 0 == 0xAA
@@ -517,9 +533,15 @@ def cursorOracle (o : OState) (k : Nat) (po : POracle) (op : String) (toks : Lis
   | some c =>
     let stop : OState × POracle := (o, { po with cursor := none })
     let expectDepth (o : OState) (c : Cursor) : OState :=
-      if ob.depth != c.depth then o.flag "C06" s!"@{k} {op}: get_depth {ob.depth}, reference cursor {c.depth}" else o
+      if ob.depth != c.depth then
+        let o := o.flag "C06" s!"@{k} {op}: get_depth {ob.depth}, reference cursor {c.depth}"
+        if op == "gr" then o.flag "C11" s!"@{k} get_raw: get_depth {ob.depth}, reference cursor {c.depth}" else o
+      else o
     let noErr (o : OState) : OState :=
-      if ob.err != 0 then o.flag "C06" s!"@{k} {op}: error {ob.err} raised on a protocol-following call of a valid document" else o
+      if ob.err != 0 then
+        let o := o.flag "C06" s!"@{k} {op}: error {ob.err} raised on a protocol-following call of a valid document"
+        if op == "gr" then o.flag "C11" s!"@{k} get_raw raised error {ob.err} (on a container it succeeds, on any other value it returns false and changes nothing)" else o
+      else o
     let navOp (cop : COp) (prop : String) : OState × POracle :=
       if !c.allowed cop then stop else
       let (c', res) := c.step cop
@@ -615,6 +637,14 @@ def writerLatchOracle (o : OState) (k : Nat) (toks : List String) (impl : String
     | some e =>
       -- init and a successful reset clear the latch legitimately
       let cleared := (toks.headD "" == "W") || (toks.headD "" == "wx" && parts.headD "" == "1")
+      let isWrite := !["W", "wx", "wc", "wv", "dump"].contains (toks.headD "")
+      -- C09: after the first failing write every later write returns false
+      let o := if isWrite && wo.failSeen && parts.headD "" == "1" then
+          o.flag "C09" s!"@{k} {toks}: a write returned true although an earlier write of this sequence had failed" else o
+      -- C12: a writer after init behaves like a fresh one: true, counter 0, no error
+      let o := if toks.headD "" == "W" && toks.getD 1 "" != "NULL" && impl != "1 e0 c0" then
+          o.flag "C12" s!"@{k} binson_writer_init on a non-NULL destination must return true with counter 0 and no error: {impl}" else o
+      let wo := { wo with failSeen := (if cleared then false else wo.failSeen || (isWrite && parts.headD "" == "0")) }
       let (le, lc) := match parts with | _ :: e' :: c' :: _ => (e', c') | _ => (wo.lastE, wo.lastC)
       setWO o { wo with errNow := e, lastDump := (if cleared || !e then none else wo.lastDump), lastE := le, lastC := lc,
                         resetSeen := (if toks.headD "" == "W" then false else wo.resetSeen || (toks.headD "" == "wx" && parts.headD "" == "1")) }
@@ -760,6 +790,14 @@ def oracleStep (o : OState) (toks : List String) (impl : String) : OState :=
              (match wparts with
               | _ :: e :: c :: _ => if e != wo.lastE || c != wo.lastC then
                     o.flag "C11" s!"@{k} parser_to_writer was refused but changed the writer: error/counter {wo.lastE}/{wo.lastC} became {e}/{c}" else o
+              | _ => o)
+           else o
+         let o := if pp.startsWith "1" then
+             (match wparts with
+              | _ :: e :: c :: _ =>
+                let delta := (parseObs pp).used - po.lastUsed
+                if wo.lastE == "e0" && (e != "e0" || (dropPrefix c 1).toNat! != (dropPrefix wo.lastC 1).toNat! + delta) then
+                  o.flag "C11" s!"@{k} parser_to_writer returned true but did not append exactly the {delta} bytes of the container: writer {wo.lastE}/{wo.lastC} became {e}/{c}" else o
               | _ => o)
            else o
          (match wparts with
